@@ -198,6 +198,12 @@ pub fn check(case: &Case, st: &mut Stats) -> Result<(), Violation> {
         if case.u8_storage { "u8" } else { "u16" }
     );
     let fail = |msg: String, p: &[[f32; 3]], w: usize, h: usize| Violation { signature: sig.clone(), message: msg, case: case.json_with(p, w, h) };
+    // for a third of the images the previous call on this thread encodes a permutation of the same pixels (result ignored)
+    if let Some(k) = prior_perm_kind(px.iter().flat_map(|p| p.iter().map(|c| c.to_bits())), px.len()) {
+        let q = permuted(&px, k, case.w);
+        let _ = catch(|| if case.u8_storage { encode::<u8>(c, &q, case.w, case.h, case.by_value).map(|_| ()) } else { encode::<u16>(c, &q, case.w, case.h, case.by_value).map(|_| ()) });
+        st.class("preceded_by_a_permutation_of_the_same_image", 1);
+    }
     let res = catch(|| {
         if case.u8_storage {
             encode::<u8>(c, &px, case.w, case.h, case.by_value)
